@@ -62,6 +62,9 @@ def main(argv):
     if prop in DAV:
         from . import davcheck
         return davcheck.run(prop, tier, seed, replay=a.replay)
+    if prop == "C18":
+        from . import discoverycheck
+        return discoverycheck.run(prop, tier, seed, replay=a.replay)
     if prop == "C16":
         from . import hrefcheck
         return hrefcheck.run(prop, tier, seed, replay=a.replay)
